@@ -159,7 +159,10 @@ Print Assumptions program_of_statements_partial.
    c03-tree:empty-statement-same-line), so [xone] leaves the shape out — the only gap inside the listed forms.
    OUTSIDE the fragment (searched by the generator oracle, not proved): for-in / for-of / for await, return and
    function / class declarations and expressions, import / export, binding patterns
-   (destructuring, also as catch parameter), yield / await as names.
+   (destructuring, also as catch parameter), yield / await as names; an expression statement that begins with the
+   identifier `let` directly followed by an identifier, yield, await, '[' or '{' token (only possible as the body of
+   if / while / do / for / with: `while(a) let <newline> b`): the model follows parseStmt there (`let [` is an error,
+   otherwise the identifier `let`, which must end before that token) and the correspondence run covers it, [xone] leaves it out.
    Instance: Stmts2.v x_example_derivable (a twelve-statement program mixing the forms, its derivation) and x_example (its tree). *)
 Theorem program_of_statement_fragment_partial :
   forall ts l, xprog ts l -> parse_xprogram false ts = Ok l.
